@@ -369,6 +369,54 @@ func runC17(cfg runCfg) error {
 				detail = fmt.Sprintf("aliased __schema query lists %d types, the standard query %d", n, len(std))
 			}
 		}
+		// the members of abstract types and the interfaces of objects, described in place: they must read as their own entries
+		okNested, nestedDetail := true, ""
+		nprobe := 0
+		for _, tn := range inView {
+			t := std[tn]
+			pts := ojGet(t, "possibleTypes")
+			ifs := ojGet(t, "interfaces")
+			if (pts == nil || pts.Kind != "arr" || len(pts.Arr) == 0) && (ifs == nil || ifs.Kind != "arr" || len(ifs.Arr) == 0) {
+				continue
+			}
+			if nprobe++; nprobe > 3 {
+				break
+			}
+			q := `{ __type(name: ` + jsonString(tn) + `) { possibleTypes { name fields(includeDeprecated: true) { name } } interfaces { name fields(includeDeprecated: true) { name } } } }`
+			r6, err := s.gw.do(context.Background(), q, nil, "", hdr)
+			if err != nil {
+				return err
+			}
+			for _, key := range []string{"possibleTypes", "interfaces"} {
+				lst := ojGet(ojGet(r6.Data, "__type"), key)
+				if lst == nil || lst.Kind != "arr" {
+					continue
+				}
+				for _, m := range lst.Arr {
+					if m == nil || m.Kind != "obj" {
+						continue
+					}
+					var got, want []string
+					if fs := ojGet(m, "fields"); fs != nil && fs.Kind == "arr" {
+						for _, f := range fs.Arr {
+							got = append(got, ojName(f))
+						}
+					}
+					if e := std[ojName(m)]; e != nil {
+						if fs := ojGet(e, "fields"); fs != nil && fs.Kind == "arr" {
+							for _, f := range fs.Arr {
+								want = append(want, ojName(f))
+							}
+						}
+					}
+					if strings.Join(sortedStrings(got), ",") != strings.Join(sortedStrings(want), ",") {
+						okNested = false
+						nestedDetail = fmt.Sprintf("%s of %s lists %s with fields %v; as a type of its own it has %v", key, tn, ojName(m), got, want)
+					}
+				}
+			}
+		}
+		add("prop.c17.nested_types_consistent", okNested, nestedDetail)
 		add("prop.c17.type_by_name_consistent", okType, detail)
 		add("prop.c17.aliases_consistent", okAlias, detail)
 		add("prop.c17.include_deprecated_consistent", okDep, detail)
